@@ -433,4 +433,84 @@ theorem stake_methodBacked (P : Params) (op : StakeOp) : MethodBacked stakeOwed 
             have : znnTok ≠ tok := fun e => hq e.symm
             simp [this]
 
+/-! ### htlc -/
+
+theorem htlc_methodBacked (H : HashFn) (op : HtlcOp) : MethodBacked htlcOwed (op.method H) := by
+  intro st c st' ps h tok
+  cases op with
+  | create a ex ty km hl =>
+    simp only [HtlcOp.method, createHtlc] at h
+    split at h
+    · cases h
+    · split at h
+      · cases h
+      · split at h
+        · cases h
+        · split at h
+          · cases h
+          · simp only [Option.some.injEq, Prod.mk.injEq] at h
+            obtain ⟨hs, hp⟩ := h
+            subst hs; subst hp
+            have := total_put_le (fun e : HtlcE => if e.tok = tok then e.amount else 0) c.hash
+              ⟨c.sender, a, c.token, c.amount, ex, ty, km, hl⟩ st.entries
+            simp only [htlcOwed, payTotal]
+            by_cases hc : tok = c.token
+            · subst hc; simp at this ⊢; omega
+            · have hc' : ¬ c.token = tok := fun e => hc e.symm
+              simp [hc, hc'] at this ⊢; omega
+  | reclaim id =>
+    simp only [HtlcOp.method, reclaimHtlc] at h
+    split at h
+    · cases h
+    · split at h
+      · cases h
+      · rename_i e he
+        split at h
+        · cases h
+        · split at h
+          · cases h
+          · simp only [Option.some.injEq, Prod.mk.injEq] at h
+            obtain ⟨hs, hp⟩ := h
+            subst hs; subst hp
+            have := total_erase_add_le (fun e : HtlcE => if e.tok = tok then e.amount else 0) st.entries he
+            simp only [htlcOwed, payTotal]
+            simp at this ⊢; omega
+  | unlock id pre =>
+    simp only [HtlcOp.method, unlockHtlc] at h
+    split at h
+    · cases h
+    · split at h
+      · cases h
+      · rename_i e he
+        split at h
+        · cases h
+        · split at h
+          · cases h
+          · split at h
+            · cases h
+            · split at h
+              · cases h
+              · simp only [Option.some.injEq, Prod.mk.injEq] at h
+                obtain ⟨hs, hp⟩ := h
+                subst hs; subst hp
+                have := total_erase_add_le (fun e : HtlcE => if e.tok = tok then e.amount else 0) st.entries he
+                simp only [htlcOwed, payTotal]
+                simp at this ⊢; omega
+  | deny =>
+    simp only [HtlcOp.method, setProxyUnlock] at h
+    split at h
+    · cases h
+    · simp only [Option.some.injEq, Prod.mk.injEq] at h
+      obtain ⟨hs, hp⟩ := h
+      subst hs; subst hp
+      simp [htlcOwed, payTotal]
+  | allow =>
+    simp only [HtlcOp.method, setProxyUnlock] at h
+    split at h
+    · cases h
+    · simp only [Option.some.injEq, Prod.mk.injEq] at h
+      obtain ⟨hs, hp⟩ := h
+      subst hs; subst hp
+      simp [htlcOwed, payTotal]
+
 end ZV.Contracts
